@@ -72,6 +72,8 @@ func init() {
 			c.rulePruneStructure()
 			c.ruleFinaliseGuards()
 			c.min("R-FINALISE", 6)
+			c.ruleFinaliseSetID()
+			c.min("R-FINALISE/setid", 2)
 			c.ruleStoreAfterAdd()
 		})
 }
